@@ -102,6 +102,27 @@ func cmdDump(args []string) int {
 			items = append(items, workItem{fr, o})
 		}
 	}
+	for _, pr := range w.subtypePairs() {
+		match := len(fs.Args()) == 0
+		for _, a := range fs.Args() {
+			if strings.Contains("subtype:"+pr[1].Fn.String(), a) {
+				match = true
+			}
+		}
+		if !match {
+			continue
+		}
+		fr := w.verifySubtype(pr[0], pr[1])
+		if fr.Outside != "" {
+			fmt.Printf("OUTSIDE-SUBSET %s: %s\n", fr.Fn, fr.Outside)
+		}
+		for _, o := range fr.Obls {
+			if *smt != "" && strings.Contains(o.Name, *smt) {
+				fmt.Println(queryText(fr, o))
+			}
+			items = append(items, workItem{fr, o})
+		}
+	}
 	if *smt != "" {
 		return 0
 	}
